@@ -1177,6 +1177,64 @@ fn main() {
                 }
             }
         }
+        // compact_unreadable_parent_input : three flushes leave one table each at levels 2, 1 and 0 (overlapping key ranges); the
+        // level-1 table gets a damaged footer while the database is closed; after a reopen (cold table cache) the whole key space
+        // is compacted. The level-1 table is the *second* child of the merge (opened lazily): the compaction has to fail. An
+        // acknowledged key may afterwards be unreadable (error) but never absent or older.
+        "compact_unreadable_parent_input" => {
+            use raindb::{ReadOptions, WriteOptions};
+            let mut o = raindb::DbOptions::with_memory_env();
+            o.db_path = "db".to_string();
+            o.create_if_missing = true;
+            let mut want: std::collections::BTreeMap<Vec<u8>, Vec<u8>> = Default::default();
+            {
+                let db = raindb::DB::open(o.clone()).expect("open");
+                for (round, range) in [(0usize, 0..20usize), (1, 5..15), (2, 8..11)] {
+                    for i in range {
+                        let (k, val) = (format!("k{:02}", i).into_bytes(), format!("round{}-{}", round, i).into_bytes());
+                        db.put(WriteOptions::default(), k.clone(), val.clone()).unwrap();
+                        want.insert(k, val);
+                    }
+                    let (k, val) = (format!("k{:02}-only-round{}", 9, round).into_bytes(), format!("only{}", round).into_bytes());
+                    db.put(WriteOptions::default(), k.clone(), val.clone()).unwrap();
+                    want.insert(k, val);
+                    let _ = db.flush_for_verif();
+                }
+                println!("levels_before={}", db.get_descriptor(raindb::db::DatabaseDescriptor::SSTables).map(|d| format!("{:?}", d).chars().filter(|c| !c.is_whitespace()).take(200).collect::<String>()).unwrap_or_default());
+            }
+            let nums = v::table_numbers(&o);
+            println!("tables_before={}", join(&nums));
+            if nums.len() != 3 {
+                println!("compact=setup-failed");
+                return;
+            }
+            println!("damaged={}", v::flip_table_byte(&o, nums[1], usize::MAX));
+            match raindb::DB::open(o.clone()) {
+                Err(e) => println!("compact=OpenErr({:?})", e),
+                Ok(db) => {
+                    db.compact_range(None..None);
+                    println!("compact=done");
+                    let (mut lost, mut errors, mut first) = (0usize, 0usize, String::new());
+                    for (k, val) in &want {
+                        match db.get(ReadOptions::default(), k) {
+                            Ok(got) if &got == val => {}
+                            Err(raindb::errors::RainDBError::KeyNotFound) | Ok(_) => {
+                                lost += 1;
+                                if first.is_empty() {
+                                    first = String::from_utf8_lossy(k).to_string();
+                                }
+                            }
+                            Err(_) => errors += 1,
+                        }
+                    }
+                    println!("keys={}", want.len());
+                    println!("lost={}", lost);
+                    println!("read_errors={}", errors);
+                    println!("first_lost={}", first);
+                    println!("tables_after={}", join(&v::table_numbers(&o)));
+                }
+            }
+        }
         // compaction_outputs : a compaction opens three output files in a row; which table numbers are protected afterwards?
         "compaction_outputs" => {
             let mut o = raindb::DbOptions::with_memory_env();
